@@ -40,7 +40,9 @@ class RefMDP:
         self.poison = self.NS - 1
         self.low = np.float32(box_low)
         self.high = np.float32(box_high)
-        self.scale = np.float32(self.comps[0] / (box_high - box_low))
+        width = (box_high - box_low) if np.isfinite(box_high - box_low) else 2.0
+        self.scale = np.float32(self.comps[0] / width)
+        self.anchor = self.low if np.isfinite(self.low) else np.float32(self.high - 2.0)
         self.time_limit = time_limit  # None or int N
 
     # ----------------------------------------------------------------- actions
@@ -73,7 +75,7 @@ class RefMDP:
         x = np.asarray(action, dtype=np.float32).reshape(-1)
         ok = self.in_bounds(x)
         with np.errstate(invalid="ignore", over="ignore"):
-            b = np.floor((x - self.low) * self.scale)
+            b = np.floor((x - self.anchor) * self.scale)
         a = 0
         for j, nj in enumerate(self.comps):
             bj = b[j]
